@@ -75,12 +75,27 @@ def run(ctx):
     for st in stmts(f):
         if isinstance(st, ast.Assign) and isinstance(st.value, ast.BinOp) and isinstance(st.value.op, ast.BitOr):
             mask = st
-    ctx.need(mask is not None, "residue change mask")
-    used = [terms.get(t.id) if isinstance(t, ast.Name) else None for t in or_terms(mask.value)]
+    used = None
+    where_line = f.lineno
+    if mask is not None:
+        used = [terms.get(t.id) if isinstance(t, ast.Name) else None for t in or_terms(mask.value)]
+        where_line = mask.lineno
+    else:
+        # loop idiom:  for category in ("a", "b"): annot = array.get_annotation(category); mask |= annot[1:] != annot[:-1]
+        for st in stmts(f):
+            if isinstance(st, ast.For) and isinstance(st.iter, (ast.Tuple, ast.List)) \
+                    and all(isinstance(e, ast.Constant) and isinstance(e.value, str) for e in st.iter.elts):
+                acc = [b for b in st.body if isinstance(b, ast.AugAssign) and isinstance(b.op, ast.BitOr)
+                       and isinstance(b.value, ast.Compare) and isinstance(b.value.ops[0], ast.NotEq)]
+                if acc:
+                    used = [e.value for e in st.iter.elts]
+                    where_line = st.lineno
+    if used is None:
+        raise AnalysisError("anchor vanished: residue change mask (neither an OR of change arrays nor a category loop)")
     ctx.ob("R1.residue-change-mask", RES, "get_residue_starts", f"OR of changes in {sorted(x for x in used if x)}",
            None not in used and sorted(used) == ["chain_id", "ins_code", "res_id", "res_name"],
            "a residue starts exactly where chain_id, res_id, ins_code or res_name differ between "
-           f"consecutive atoms; the mask combines {used}", mask.lineno)
+           f"consecutive atoms; the mask combines {used}", where_line)
     f2 = cha.func("get_chain_starts")
     terms2 = change_terms(f2)
     dec = {}
@@ -209,6 +224,15 @@ def run(ctx):
            "starts[1:] - starts[:-1]" in ast.unparse(sp) and "np.repeat(input_data, seg_lens, axis=0)" in ast.unparse(sp),
            "values are repeated by the segment lengths", sp.lineno)
     ap = seg.func("apply_segment_wise")
+    allocs = [c for c in calls(ap) if call_name(c) == "np.zeros"]
+    ctx.need(len(allocs) == 2, "result allocations of apply_segment_wise")
+    for c in allocs:
+        dt = [k.value for k in c.keywords if k.arg == "dtype"]
+        ctx.ob("R5.apply-result-dtype", SEG, "apply_segment_wise", c,
+               bool(dt) and "value" in names_in(dt[0]) and "data" not in names_in(dt[0]),
+               "the result array holds the function's values: its dtype must come from the value, not from "
+               "the input data (a count of a boolean mask would collapse to True/False, a mean of integers "
+               "would be truncated)", c.lineno)
     ctx.ob("R5.apply", SEG, "apply_segment_wise", "data[starts[i]:starts[i + 1]]",
            "data[starts[i]:starts[i + 1]]" in ast.unparse(ap) and "range(len(starts) - 1)" in ast.unparse(ap),
            "the function is applied to consecutive segments", ap.lineno)
@@ -265,6 +289,8 @@ MUTANTS = [
            "R4.mode-honoured", "get_residue_starts"),
     Mutant("regress-empty-mode-chain", CHA, "        if add_exclusive_stop:\n            # The exclusive stop of an empty array is index 0\n            return np.array([0], dtype=int)\n", "",
            "R4.mode-honoured", "get_chain_starts"),
+    Mutant("apply-dtype-data", SEG, "processed_data = np.zeros(len(starts) - 1, dtype=type(value))", "processed_data = np.zeros(len(starts) - 1, dtype=data.dtype)",
+           "R5.apply-result-dtype"),
     Mutant("searchsorted-left", SEG, 'return np.searchsorted(starts, indices, side="right") - 1', 'return np.searchsorted(starts, indices, side="left") - 1',
            "R5.segment-lookup", "get_segment_positions"),
     Mutant("start-no-plus1", RES, "residue_starts = np.where(residue_change_mask)[0] + 1", "residue_starts = np.where(residue_change_mask)[0]",
